@@ -5,7 +5,7 @@ import re
 
 from ..core import callee_of, callee_decl, callee_matches, op_place, op_const, origins
 from ..flow import conditions
-from ..prov import prov, leaves, subterms, show
+from ..prov import prov, leaves, subterms, show, roots
 
 TYPE = "utils::equivalency_computer::EquivalencyComputer"
 
@@ -375,5 +375,150 @@ def rule_merge_test(ctx):
                     anchor = "%s|counter-store#%d" % (F.id, n2)
                     idx = _one(prov(prog, y, s.node["args"][1]))
                     good = core_[1] in ("Add", "AddWithOverflow") and core_[2][1] == ("const", 1) and idx is not None and idx[0] == "call" and idx[1].endswith("Label::id") and _calls_in(idx, r"::attacked$") and _calls_in(idx, r"AAFramework::iter_attacks$")
+                    if good and _calls_in(idx, r"Iterator::(filter|filter_map|skip|skip_while|take|take_while|step_by)$"):
+                        r.violation(anchor, "counter-filtered", "the in-degree counters count a filtered list of attacks (%s): the propagations do not start from the in-degrees" % _calls_in(idx, r"Iterator::(filter|filter_map|skip|skip_while|take|take_while|step_by)$")[0][1].rsplit("::", 1)[-1], s.loc())
+                        continue
                     r.check(good, anchor, "counter-rewritten:%s" % core_[1], "counters are incremented once per stored attack, at the attacked argument", "the attacker counters are rewritten (%s at %s): the propagations no longer start from the in-degrees" % (core_[1], show(idx)[:80] if idx else "?"), s.loc())
     r.floor(n2, 1, "stores into the in-degree counters")
+
+
+def _flag_vector_start(prog, y, vec_op, depth=0):
+    """how a bool vector starts: 'false' (all false), 'preset' (some entries may start true), None (not recognised)"""
+    verdicts = set()
+    for e in prov(prog, y, vec_op):
+        if e[0] == "call" and e[1].endswith("from_elem") and e[2]:
+            verdicts.add("false" if e[2][0] == ("const", False) else ("preset" if e[2][0] == ("const", True) else None))
+        elif e[0] == "call" and re.search(r"Iterator::collect$", e[1]) and e[2]:
+            maps = [t for t in subterms(e) if isinstance(t, tuple) and t[0] == "call" and re.search(r"Iterator::map$", t[1]) and t[3]]
+            if len(maps) != 1:
+                verdicts.add(None)
+                continue
+            clo = prog.by_target[y.target].get(maps[0][3][0])
+            if clo is None:
+                verdicts.add(None)
+                continue
+            rets = prov(prog, clo, {"l": 0, "p": []})
+            if all(x == ("const", False) for x in rets):
+                verdicts.add("false")
+            elif any(x == ("const", True) or (x[0] in ("call", "op") and any(z[0] == "elem" or (z[0] == "param" and z[1] == clo.path) for z in subterms(x) if isinstance(z, tuple))) for x in rets):
+                verdicts.add("preset")
+            else:
+                verdicts.add(None)
+        else:
+            verdicts.add(None)
+    if "preset" in verdicts:
+        return "preset"
+    if verdicts == {"false"}:
+        return "false"
+    return None
+
+
+def _index_conditions(prog, conds):
+    """[(tree of an `Index::index(V, I)` condition, truth, roots of V)]"""
+    from .grounded import _cond_trees, _is_call
+
+    out = []
+    for y, c in conds:
+        for e, t in _cond_trees(prog, [(y, c)]):
+            if not _is_call(e, r"Index::index$", 2):
+                continue
+            vr = set()
+            for o in origins(y, c.place, transparent=("core::ops::bit::Not::not",)):
+                if o.kind == "call" and callee_decl(o.data) == "core::ops::index::Index::index":
+                    vr |= roots(prog, y, o.site.node["args"][0])
+            out.append((e, t, vr))
+    return out
+
+
+def _start_of(prog, bodies, vroots):
+    """how the vector with these roots starts"""
+    for y in bodies:
+        for s in y.calls():
+            if callee_decl(callee_of(s)) in ("core::ops::index::Index::index", "core::ops::index::IndexMut::index_mut") and "bool" in str(callee_of(s).get("substs")):
+                if roots(prog, y, s.node["args"][0]) & vroots:
+                    return _flag_vector_start(prog, y, s.node["args"][0])
+    return None
+
+
+def rule_propagation_discipline(ctx):
+    prog = ctx.prog
+    r = ctx.rule(
+        "class-propagation",
+        "the propagation the classes are built from: a counter of undefeated attackers is lowered by 1 only in the step where the attacking "
+        "argument D is defeated for the first time - the step runs under `not defeated[D]`, D is marked in that step, and the `defeated` flags "
+        "start all false; D is a target of an attack of a propagated argument, the counter lowered is that of a target of an attack of D",
+    )
+    from .grounded import inherited_conditions, _cond_trees, _is_call
+
+    mod = TYPE.rsplit("::", 1)[0]
+    fns = [b for b in prog.lib_bodies() if b.kind != "closure" and b.path.startswith(mod + "::") and re.match(r"^alloc::vec::Vec<%s::\w+>$" % re.escape(mod), b.ret_ty)]
+    if not r.require_anchor(len(fns) == 1, "the function returning the class list"):
+        return
+    F = fns[0]
+    bodies = []
+    for x in [F] + [x for x in prog.reachable_from([F], virtual_dispatch=False).values() if x.kind != "closure" and x.path.startswith(mod + "::") and x is not F]:
+        for y in prog.with_closures(x):
+            if y not in bodies:
+                bodies.append(y)
+    # marking stores: V[I] = true
+    marks = []
+    for y in bodies:
+        for s in y.calls():
+            if callee_decl(callee_of(s)) == "core::ops::index::IndexMut::index_mut" and "bool" in str(callee_of(s).get("substs")):
+                if any((op_const(o) or {}).get("bool") is True for o in _stores_through(y, s)):
+                    conds = _cond_trees(prog, inherited_conditions(prog, y, s.bb))
+                    for v in roots(prog, y, s.node["args"][0]):
+                        for i in prov(prog, y, s.node["args"][1]):
+                            marks.append((v, i, conds))
+    n = 0
+    for y in bodies:
+        for s in y.calls():
+            if callee_decl(callee_of(s)) != "core::ops::index::IndexMut::index_mut" or "bool" in str(callee_of(s).get("substs")):
+                continue
+            for op in _stores_through(y, s):
+                for e in prov(prog, y, op):
+                    core_ = e[1] if e[0] == "field" and e[2] == "0" and e[1][0] == "op" else e
+                    if not (core_[0] == "op" and core_[1] in ("Sub", "SubWithOverflow") and len(core_[2]) == 2):
+                        continue
+                    n += 1
+                    anchor = "%s|decrement#%d" % (F.id, n)
+                    r.check(core_[2][1] == ("const", 1), anchor, "step:%s" % show(core_[2][1]), "a defeated attacker lowers the counter by 1", "the counter is lowered by %s per defeated attacker" % show(core_[2][1]), s.loc())
+                    X = _one(prov(prog, y, s.node["args"][1]))
+                    froms = [t for t in subterms(X) if _is_call(t, r"iter_attacks_from(_id)?$")] if X is not None else []
+                    if X is None or not _is_call(X, r"Label::id$", 1) or not _is_call(X[2][0], r"::attacked$", 1) or X[2][0][2][0][0] != "elem" or not froms:
+                        wrong = X is not None and (_calls_in(X, r"::attacker$") or _calls_in(X, r"iter_attacks_to(_id)?$"))
+                        if wrong:
+                            r.violation(anchor, "decrement-target", "the counter lowered is that of %s: not a target of an attack of the defeated argument" % show(X)[:100], s.loc())
+                        else:
+                            r.ok(anchor, "NOT decided: the index of the lowered counter is not recognised (%s)" % (show(X)[:80] if X else "several"), s.loc())
+                        continue
+                    D = froms[0][2][-1]
+                    d_from = _is_call(D, r"Label::id$", 1) and _is_call(D[2][0], r"::attacked$", 1) and D[2][0][2][0][0] == "elem" and _is_call(D[2][0][2][0][1], r"iter_attacks_from(_id)?$")
+                    if not d_from:
+                        wrong = _calls_in(D, r"::attacker$") or _calls_in(D, r"iter_attacks_to(_id)?$")
+                        if wrong:
+                            r.violation(anchor, "defeated-source", "the argument whose attacks are followed is %s: not a target of an attack of a propagated argument" % show(D)[:100], s.loc())
+                        else:
+                            r.ok(anchor, "NOT decided: the defeated argument is not recognised (%s)" % show(D)[:80], s.loc())
+                        continue
+                    conds = _cond_trees(prog, inherited_conditions(prog, y, s.bb))
+                    cand = [(c, t, vr) for c, t, vr in _index_conditions(prog, inherited_conditions(prog, y, s.bb)) if c[2][1] == D]
+                    # the guard vector is the one D is marked in, under the same guard
+                    guard = [(c, t, vr) for c, t, vr in cand if any(v in vr and i == D and (c, t) in mc for v, i, mc in marks)]
+                    hidden = [c for c, t in conds if c[0] == "call" and not _is_call(c, r"Index::index$") and D in list(c[2])]
+                    if guard:
+                        r.check(all(t is False for c, t, vr in guard), anchor + "|once", "guard-polarity", "the counters are lowered only the first time D is defeated", "the counters are lowered only when the defeated argument was *already* marked", s.loc())
+                        st = _start_of(prog, bodies, guard[0][2])
+                        if st == "preset":
+                            r.violation(anchor + "|once", "defeated-flags-preset", "the `defeated` flags do not start all false: an argument flagged at the start never lowers the counters of its targets when it is defeated", s.loc())
+                        elif st == "false":
+                            r.ok(anchor + "|once", "the `defeated` flags start all false", s.loc())
+                        else:
+                            r.ok(anchor + "|once", "NOT decided: how the `defeated` flags start is not recognised", s.loc())
+                    elif hidden:
+                        r.ok(anchor + "|once", "NOT decided: the first-defeat test is made by %s" % hidden[0][1].rsplit("::", 1)[-1], s.loc())
+                    elif cand and not marks:
+                        r.ok(anchor + "|once", "NOT decided: no marking store recognised", s.loc())
+                    else:
+                        r.violation(anchor + "|once", "no-first-defeat-guard", "the attackers' counters are lowered at every attack on %s, not only in the step where it is defeated (and marked) for the first time: an argument attacked by two propagated arguments is counted twice" % show(D)[:80], s.loc())
+    r.floor(n, 1, "counter decrements in the class propagation")
